@@ -5,7 +5,8 @@ LEAN_MODULE = ["Urandom.Props.C09", "Urandom.Props.C09T", "Urandom.Props.C17R"]
 RULE = ("requests: from_seed / urandom::seeded for seeds {0,1,!0,2^k,2^k-1, low-entropy patterns, random} on Xoshiro256, SplitMix64, Wyrand, ChaCha8/12/20: the state read back "
         "through serde and the first outputs are compared with the model; oracle: state not all-zero, and pairwise distinct states for the distinct seeds of the run; extra: specification-guided collision search (the seed that the documented "
         "expansion maps to the state observed for s is computed by inverting the expansion; if it is not s the implementation is asked for its state too). "
-        "non-trivial = all; distinct = distinct request line")
+        "non-trivial = all; distinct = distinct request line"
+        " Since round 10: the first output of a fresh ChaCha through byte fills of several lengths, a float and after a jump, compared across seeds (never all zero).")
 ASSUMPTIONS = ["stream distinctness beyond the initial state is proved only where the output map is a bijection (SplitMix64); see Props/C09.lean"]
 
 
